@@ -3,6 +3,7 @@
 from __future__ import annotations
 
 import ast
+import re
 import itertools
 
 from ..model import AnalysisError, norm, walk_live, parent, ancestors, first_line
@@ -190,9 +191,27 @@ def rule_guard_shape(P, which=("binarize", "_push_null_weights", "unaryremove", 
             r.add(f, c, ok, "" if ok else "the new start symbol appears in a body", slots=dict(builder="separate_start"))
         # returning self is allowed only when S is on no right-hand side
         for ret in [n for n in walk_live(f.node) if isinstance(n, ast.Return) and W.is_name(n.value, "self")]:
-            facts = W.guard_facts(ret)
-            ok = any((not ft.pol) and isinstance(ft.test, ast.Compare) and isinstance(ft.test.ops[0], ast.In)
-                     and norm(ft.test.left) == "self.S" and ".body" in norm(ft.test.comparators[0]) for ft in facts)
+            ok = False
+            built_elsewhere = None
+            for t in W.cfacts(f.node, ret):
+                m_ = re.match(r"^self\.S not in (.+)$", t)
+                if m_:
+                    rhs_ = m_.group(1)
+                    if ".body" in rhs_:
+                        ok = True
+                    elif rhs_.isidentifier():
+                        # a set collected by a loop: every rule's whole body must go into it
+                        ups = [c for c in walk_live(f.node) if isinstance(c, ast.Call) and isinstance(c.func, ast.Attribute) and c.func.attr in ("update", "add")
+                               and W.is_name(c.func.value, rhs_)]
+                        full = [c for c in ups if c.func.attr == "update" and c.args and norm(c.args[0]).endswith(".body")
+                                and any(isinstance(a, ast.For) and norm(a.iter) in ("self", "self.rules") and not W.cfacts(f.node, c) for a in ancestors(c))]
+                        if ups and len(full) == len(ups):
+                            ok = True
+                        else:
+                            built_elsewhere = rhs_
+            if not ok and built_elsewhere is not None:
+                r.undecided(f, ret, f"`return self` is guarded by `self.S not in {built_elsewhere}`, a set built elsewhere", construct="separate_start: return self")
+                continue
             r.add(f, ret, ok, "" if ok else "`return self` is not dominated by `self.S not in <bodies>`")
     if "_trim" in which:
         f = P.func("cfg.py::CFG._trim")
@@ -619,7 +638,9 @@ def _nonzero_fact(facts, den):
             continue
         l, op, rr = c
         for a, b in ((l, rr), (rr, l)):
-            if norm(a) == d and (norm(b) in ("0", "0.0") or norm(b).endswith(".zero") or norm(b) == "zero"):
+            # `(z := Z[x]) != 0` tests z and Z[x] alike
+            names = [norm(a)] + ([norm(a.target), norm(a.value)] if isinstance(a, ast.NamedExpr) else [])
+            if d in names and (norm(b) in ("0", "0.0") or norm(b).endswith(".zero") or norm(b) == "zero"):
                 if op is ast.NotEq or op is ast.Gt:
                     return True
     return False
